@@ -376,6 +376,14 @@ impl AnyReader {
         }
     }
 
+    /// generation number of the policy object the reader's `policy()` accessor hands out
+    pub fn policy_generation(&self) -> usize {
+        match self {
+            AnyReader::Fasta(r) => r.policy().generation(),
+            AnyReader::Fastq(r) => r.policy().generation(),
+        }
+    }
+
     pub fn set_policy(self, p: RecPolicy) -> AnyReader {
         match self {
             AnyReader::Fasta(r) => AnyReader::Fasta(r.set_policy(p)),
